@@ -311,6 +311,14 @@ where
         // note that the coefficients of the remainder polynomial are sent in reverse order and
         // this simplifies evaluation using Horner's method.
         let remainder_poly = channel.read_remainder()?;
+
+        // make sure the remainder polynomial is the one the prover committed to; its commitment
+        // is the last of the FRI layer commitments
+        let remainder_commitment = <H as ElementHasher>::hash_elements(&remainder_poly);
+        if self.layer_commitments.last() != Some(&remainder_commitment) {
+            return Err(VerifierError::RemainderCommitmentMismatch);
+        }
+
         if remainder_poly.len() > max_degree_plus_1 {
             return Err(VerifierError::RemainderDegreeMismatch(max_degree_plus_1 - 1));
         }
